@@ -405,11 +405,20 @@ def run_history(case):
     out = []
     sig0 = f"{base}"
     for name in case["prefix"]:
+        before = observe(o)
         r = call(apply_valid, o, name)
         if not r.ok:
             # a 'valid' operation may be inapplicable in this state (e.g. merge of a single bin, normalize of an empty
             # histogram): then it is just another refused call - nothing may have changed
-            return out, "prefix-refused"
+            after = observe(o)
+            pr = invariants(o)
+            if pr:
+                out.append(V("wellformed", f"malformed|{sig0}|after_refused_valid={name}", case, "well-formed", pr))
+            elif after != before:
+                changed = sorted({k for b, a in zip(before, after) for k in b if b[k] != a[k]})
+                out.append(V("refused_changes_nothing", f"refused_but_changed|{name}|{'+'.join(changed)}|{type(r.exc).__name__}", case,
+                             {"before": before}, {"after": after, "exception": r.describe()}))
+            return out, "prefix-refused" if not out else "viol"
         pr = invariants(o)
         if pr:
             out.append(V("wellformed", f"malformed|{sig0}|after_valid={name}", case, "well-formed", pr))
@@ -505,6 +514,14 @@ def run_unit(unit, ctx):
                 okp = False
                 break
         if not okp:
+            # the refused 'valid' operation itself is judged (it must not have changed anything)
+            case = {"base": base, "prefix": prefix, "faults": [], "follow": None}
+            vs, label = run_history(case)
+            p.ev(True)
+            p.transitions += len(prefix)
+            p.traces += 1
+            p.outcome(f"{label}:{prefix[-1]}")
+            p.extend(vs)
             continue
         fnames = [n for n, _, _ in faults(o)]
         combos = [[f] for f in fnames]
